@@ -28,7 +28,10 @@ RULE = ("S->C: TLC enumerates the message-shape case analysis of MsgHash_Gen (ki
         "the proof / rebuilt records go through the package-level tlb.Unmarshal on ONE boc.Cell variable whose content changes. "
         "MsgHash_Gen also builds, from the cell definitions, messages whose body / init holds exotic subtrees (Merkle proof over a partly "
         "pruned tree, a cell X next to a proof in which X is pruned, Merkle update, library cell, pruned branch; by reference, inline, "
-        "nested deeper) and a minimal transaction around each, and hands them over as bags written by Boc!Write. "
+        "nested deeper; pruned branches with the multi-bit level masks 3, 5, 6, 7 carrying the stored hashes of a tree that is itself "
+        "partly pruned) and a minimal transaction around each, and hands them over as bags written by Boc!Write. The entries of the "
+        "public accessor Block.AllTransactions() are set one to one (both ordered by lt, account) against the transaction cells of "
+        "the block's tree and judged like the records of account_blocks. "
         "Multi-step part (MsgHashSeq.tla): decoding as a state machine over (source cell, destination value); TLC enumerates every "
         "behaviour of 2 (thorough: 3) decodes over 2 cells x 2 values x {package-level Unmarshal, caching decoder}; the harness replays "
         "each on message cells and on transaction cells WITHOUT ever rewinding a cell or clearing a value and observes every value "
@@ -147,12 +150,18 @@ def judge(ck, traces, par=8):
             nrej += 1
             if e.get("k") == "BuildErr":
                 raise Infra("%s: the harness could not build / decode a message (%s): %s" % (what, e.get("class"), e.get("err")))
+            if e.get("k") == "Count":
+                ck.report("C16:tx:count:" + e.get("pos", "?"), "%s of %s hands out %s / %s entries, the block's tree holds %s transaction cells" % (
+                    e.get("pos"), e.get("src"), e.get("entries"), e.get("entries_cached"), e.get("cells_in_tree")), {"kind": "event", "event": e})
+                continue
             if e.get("k") == "Panic":
                 if str(e.get("panic", "")).startswith("panic:"):
                     ck.report("C16:panic:" + e.get("src", "?"), "panic while decoding / hashing records of a real block: " + e["panic"], {"kind": "event", "event": e})
                     continue
                 raise Infra("%s: driver failed on %s: %s" % (what, e.get("src"), e.get("panic")))
-            if note in NOT_A_VERDICT or note == "?":
+            # an accessor entry that names another transaction than the cell at its place is a verdict about the accessor
+            accessor = e.get("k") == "Tx" and e.get("pos") == "Block.AllTransactions" and note == "tx-binding"
+            if (note in NOT_A_VERDICT or note == "?") and not accessor:
                 raise Infra("%s: event %d of %s is not judgeable (%s): the recorded cells do not have the demanded shape / cannot be read "
                             "by MsgHash (encoder or harness problem, not a C16 verdict): %s" % (what, rj["line"], tp, note, json.dumps(slim(e, 1500))))
             ck.report(key_of(e, note), "%s: check '%s' of MsgHash_Trace fails: the library's report differs from what the specification derives "
@@ -205,8 +214,8 @@ def gen_vectors(ck):
                               timeout=1200, name="gen_" + part, heap_gb=4)
         return res.vecs()
     cases, rest, exotic = vlib.parallel(gen, ["case", "pair", "exotic"], n=3)
-    if sorted(v["k"] for v in exotic) != ["xmsg"] * 9 + ["xtx"] * 9:
-        raise Infra("MsgHash_Gen part exotic produced %d vectors, expected 9 messages and 9 transactions" % len(exotic))
+    if sorted(v["k"] for v in exotic) != ["xmsg"] * 15 + ["xtx"] * 15:
+        raise Infra("MsgHash_Gen part exotic produced %d vectors, expected 15 messages and 15 transactions" % len(exotic))
     ck.extra["gen_exotic_subtree_bags"] = sorted(set(v["name"] for v in exotic))
     msgs = [v for v in rest if v["k"] == "msg"]
     pairs = [v for v in rest if v["k"] == "pair"]
@@ -266,6 +275,8 @@ def stats(traces):
                 c[k + (":" + e["src"] if "src" in e else "")] += 1
                 distinct.add(hashlib.md5(json.dumps(e["cells"]).encode()).hexdigest())
                 cells += len(e["cells"])
+                if k == "Tx" and e["pos"] == "Block.AllTransactions":
+                    c["Tx-Block.AllTransactions"] += 1
                 if k == "Tx" and e["pos"].startswith("exotic:"):
                     c["Tx-exotic"] += 1
                 if k == "Msg" and ":exotic:" in e["class"]:
@@ -423,7 +434,8 @@ def run(ck):
     anyc, _ = judge(ck, jg + jd, par=vlib.NCPU)
     log("traces judged at %.1fs" % (time.time() - ck.t0))
     gs, gdistinct, _ = stats(gtraces)
-    ck.sample({"direction": "S->C", "case": vecs[25]["c"], "cells": vecs[25]["cells"][:2], "pair": next(v for v in vecs if v["k"] == "pair" and v["exp"] == "free")})
+    sc = next(v for v in vecs if v["k"] == "case")
+    ck.sample({"direction": "S->C", "case": sc["c"], "cells": sc["cells"][:2], "pair": next(v for v in vecs if v["k"] == "pair" and v["exp"] == "free")})
     ds, ddistinct, ncells = stats(traces)
     ck.extra["recorded"] = {k: v for k, v in sorted(ds.items())}
     ck.extra["cells_judged"] = ncells
@@ -437,7 +449,9 @@ def run(ck):
                     {k: v for k, v in ds.items() if k.startswith("Tx-")})
     if not any(e["k"] == "Msg" and "hnr" in e for e in [x for tp in traces for x in vlib.read_ndjson(tp)]):
         raise Infra("no message with a library-cell body went through the decoder with a library resolver")
-    if gs["Msg-exotic"] != 9 or gs["Tx-exotic"] != 9:
+    if ds["Tx-Block.AllTransactions"] < 20:
+        raise Infra("too few entries of Block.AllTransactions were recorded: %d" % ds["Tx-Block.AllTransactions"])
+    if gs["Msg-exotic"] != 15 or gs["Tx-exotic"] != 15:
         raise Infra("the bags with exotic subtrees were not all decoded: %d messages, %d transactions" % (gs["Msg-exotic"], gs["Tx-exotic"]))
     if ds["Msg:var-reused"] < 50 or gs["Msg:var-reused"] < 100 or ds["Norm"] < 50:
         raise Infra("too few messages decoded into reused variables / assigned after hashing")
